@@ -2,6 +2,7 @@ package main
 
 import (
 	"fmt"
+	"os"
 	"go/token"
 	"go/types"
 	"sort"
@@ -235,6 +236,10 @@ func (e *enc) run(fr *frame, atEntry Term) {
 			if d, ok := in.(*ssa.DebugRef); ok {
 				if obj, ok := d.Object().(*types.Var); ok && obj != nil && !isPkgLevel(obj) {
 					fr.curNames[obj.Name()] = d.X
+					// a variable that lives in a cell (address taken / captured) is always read from its cell
+					if a := fr.allocFor(obj); a != nil {
+						fr.curNames[obj.Name()] = a
+					}
 				}
 			}
 			if c, ok := in.(*ssa.Call); ok && fr.contract != nil && len(fr.contract.After) > 0 {
@@ -506,6 +511,15 @@ func (e *enc) loopHeader(fr *frame, h *ssa.BasicBlock) {
 			ls.rangeIdx = phi
 		}
 	}
+	// map range: the ghost set of visited keys (empty on entry)
+	for _, in := range h.Instrs {
+		if nx, ok := in.(*ssa.Next); ok && !nx.IsString {
+			if st := fr.rangeOf[nx.Iter]; st != nil && st.mt != nil {
+				ls.rng = st
+				ls.visCur = fmt.Sprintf("((as const (Array %s Bool)) false)", e.so.of(st.mt.Key()))
+			}
+		}
+	}
 	if ls.spec != nil {
 		for i, inv := range ls.spec.Invariants {
 			env := e.loopEnv(fr, h, entryVals, e.mem)
@@ -517,9 +531,17 @@ func (e *enc) loopHeader(fr *frame, h *ssa.BasicBlock) {
 			e.oblige(fmt.Sprintf("inv-init.L%d.%d", ord, i+1), g, firstPos(h), inv.Text)
 		}
 	}
+	if ls.rng != nil {
+		ks := e.so.of(ls.rng.mt.Key())
+		ls.rng.visited = e.fresh("visited", fmt.Sprintf("(Array %s Bool)", ks))
+		ls.visCur = ls.rng.visited
+	}
 	// 2. havoc
 	keys, allHeap := e.loopWrites(fr, body)
 	stored := e.loopStores(fr, body)
+	if os.Getenv("VERIF_DEBUG_LOOPS") != "" {
+		fmt.Fprintf(os.Stderr, "loop %d of %s writes %v allHeap=%v\n", ord, fnFull(fr.fn), sortedKeys(keys), allHeap)
+	}
 	for _, k := range sortedKeys(e.mem) {
 		if keys[k] || (allHeap && strings.HasPrefix(k, "H:")) {
 			old := e.mem[k]
@@ -649,6 +671,10 @@ func (e *enc) loopLatch(fr *frame, latch, h *ssa.BasicBlock) {
 			}
 		}
 	}
+	if ls.rng != nil && ls.rng.curKey != "" {
+		ls.visCur = fmt.Sprintf("(store %s %s true)", ls.rng.visited, ls.rng.curKey)
+		defer func() { ls.visCur = ls.rng.visited }()
+	}
 	// lemmas at the back edge: proved in order, each assumed for what follows
 	for i, as := range ls.spec.Asserts {
 		env := e.loopEnv(fr, h, vals, e.mem)
@@ -736,6 +762,23 @@ func (e *enc) afterCall(fr *frame, c *ssa.Call) {
 		e.oblige(fmt.Sprintf("assert@%s.%d", key, i+1), g, c.Pos(), cl.Text)
 		e.assumeAt(g)
 	}
+}
+
+func (fr *frame) allocFor(obj *types.Var) *ssa.Alloc {
+	if fr.allocByPos == nil {
+		fr.allocByPos = map[token.Pos]*ssa.Alloc{}
+		for _, b := range fr.fn.Blocks {
+			for _, in := range b.Instrs {
+				if a, ok := in.(*ssa.Alloc); ok && a.Pos().IsValid() {
+					fr.allocByPos[a.Pos()] = a
+				}
+			}
+		}
+	}
+	if a, ok := fr.allocByPos[obj.Pos()]; ok && a.Comment == obj.Name() {
+		return a
+	}
+	return nil
 }
 
 func isPkgLevel(obj *types.Var) bool {
